@@ -39,8 +39,6 @@ package boltz
 //@   pure
 //@ func (Constraint).Label
 //@   pure
-//@ func (storeInternal).newIndexingContext
-//@   pure
 //@ func NewNotFoundError
 //@   pure
 //@   ensures result != nil
